@@ -62,6 +62,12 @@ impl<'a> Gen<'a> {
         s
     }
     fn name(&mut self) -> String { self.rng.pick(NAMES).to_string() }
+    /// the line break after an opening keyword (then / do / else / repeat / a function header), sometimes with a comment
+    /// that trails the keyword on its line
+    fn open_nl(&mut self) -> String {
+        if self.k.comments != Comments::None && self.rng.chance(1, 8) { let c = self.comment(false); if c.ends_with('\n') { format!(" {}", c) } else { format!(" {}{}", c, self.nl()) } }
+        else { self.nl().to_string() }
+    }
     fn indent(&self) -> String { "\t".repeat(self.depth) }
 
     fn atom(&mut self) -> String {
@@ -176,20 +182,20 @@ impl<'a> Gen<'a> {
                    let a = self.sp(); let b = self.sp(); let e = self.exprs(2);
                    if self.luau() && self.rng.chance(1, 6) { format!("{}{}+={}{}", t, a, b, self.expr(1)) } else { format!("{}{}={}{}", t, a, b, e) } }
             3 | 4 => { let c = self.prefix_chain(true); if c.starts_with('(') && self.rng.chance(1, 2) { format!("{}()", self.name()) } else { c } }
-            5 => format!("local function {}(a){}{}{}end", self.name(), nl, { self.depth += 1; let b = self.block(2); self.depth -= 1; b }, ind),
-            6 => { let b = body(self, 3); format!("do{}{}{}end", nl, b, ind) }
-            7 => { let c = self.expr(2); let b = body(self, 3); format!("while {} do{}{}{}end", c, nl, b, ind) }
-            8 => { let b = body(self, 2); let c = self.expr(2); format!("repeat{}{}{}until {}", nl, b, ind, c) }
+            5 => { let o = self.open_nl(); format!("local function {}(a){}{}{}end", self.name(), o, { self.depth += 1; let b = self.block(2); self.depth -= 1; b }, ind) }
+            6 => { let o = self.open_nl(); let b = body(self, 3); format!("do{}{}{}end", o, b, ind) }
+            7 => { let c = self.expr(2); let o = self.open_nl(); let b = body(self, 3); format!("while {} do{}{}{}end", c, o, b, ind) }
+            8 => { let o = self.open_nl(); let b = body(self, 2); let c = self.expr(2); format!("repeat{}{}{}until {}", o, b, ind, c) }
             9 | 10 => {
-                let c = self.expr(2); let b = body(self, 3);
-                let mut s = format!("if {} then{}{}", c, nl, b);
-                if self.rng.chance(1, 3) { let c2 = self.expr(1); let b2 = body(self, 2); s.push_str(&format!("{}elseif {} then{}{}", ind, c2, nl, b2)); }
-                if self.rng.chance(1, 3) { let b3 = body(self, 2); s.push_str(&format!("{}else{}{}", ind, nl, b3)); }
+                let c = self.expr(2); let o = self.open_nl(); let b = body(self, 3);
+                let mut s = format!("if {} then{}{}", c, o, b);
+                if self.rng.chance(1, 3) { let c2 = self.expr(1); let o2 = self.open_nl(); let b2 = body(self, 2); s.push_str(&format!("{}elseif {} then{}{}", ind, c2, o2, b2)); }
+                if self.rng.chance(1, 3) { let o3 = self.open_nl(); let b3 = body(self, 2); s.push_str(&format!("{}else{}{}", ind, o3, b3)); }
                 s.push_str(&format!("{}end", ind)); s
             }
-            11 => { let a = self.expr(1); let b2 = self.expr(1); let b = body(self, 2); format!("for i = {}, {} do{}{}{}end", a, b2, nl, b, ind) }
-            12 => { let e = self.exprs(2); let b = body(self, 2); format!("for k, v in {} do{}{}{}end", e, nl, b, ind) }
-            13 => { let b = body(self, 3); let nm = match self.rng.below(3) { 0 => format!("{}.{}", self.name(), self.name()), 1 => format!("{}:{}", self.name(), self.name()), _ => self.name() }; format!("function {}(a, b){}{}{}end", nm, nl, b, ind) }
+            11 => { let a = self.expr(1); let b2 = self.expr(1); let o = self.open_nl(); let b = body(self, 2); format!("for i = {}, {} do{}{}{}end", a, b2, o, b, ind) }
+            12 => { let e = self.exprs(2); let o = self.open_nl(); let b = body(self, 2); format!("for k, v in {} do{}{}{}end", e, o, b, ind) }
+            13 => { let nl = self.open_nl(); let b = body(self, 3); let nm = match self.rng.below(3) { 0 => format!("{}.{}", self.name(), self.name()), 1 => format!("{}:{}", self.name(), self.name()), _ => self.name() }; format!("function {}(a, b){}{}{}end", nm, nl, b, ind) }
             14 if matches!(self.k.syn, "Lua52" | "Lua53" | "Lua54" | "LuaJIT") => { let l = format!("lbl{}", self.rng.below(1000)); format!("::{}::{}{}goto {}", l, nl, ind, l) }
             _ => format!("{}()", self.name()),
         };
